@@ -18,7 +18,7 @@ RULE = ("cases = the repository's SpatialBeamSetup + SpatialBeamStates groups (t
 ASSUMPTIONS = ["statics of resultants; uniform weight per element acts at the element mid point", "g = 9.80665 m/s^2"]
 REQUIRED_FAMILIES = ["mass/structural_mass", "mass/element_mass", "cg/location", "weight_loads/force", "weight_loads/moment",
                      "fuel_loads/force", "fuel_loads/moment", "point_mass/force", "point_mass/moment", "thrust/force",
-                     "thrust/moment", "total_loads/is_sum", "fuel/volumes", "fuel/margin"]
+                     "thrust/moment", "total_loads/is_sum", "fuel/volumes", "fuel/margin", "fuel/enclosed_area_is_inner_polygon"]
 LEVEL_TEXT = ("the real mass, cg, load and fuel components are executed inside the repository's structural groups on generated "
               "configurations; mass, centroid, and the resultant force and moment of every load source about random points are "
               "recomputed from first principles on every execution")
@@ -48,6 +48,11 @@ def cases(tier, seed):
         out.append(dict(kind="alone", mesh=spec, fem=fem, relief=bool(k % 2), fuel=bool(fem == "wingbox" and (k // 2) % 2 == 0), npm=int([0, 0, 1, 2][(k // 4) % 4]),
                         seed=int(rng.integers(1 << 30)), load_factor=float(np.round(rng.choice([2.5, -1.0, rng.uniform(0.2, 4)]), 3)),
                         fuel_mass=float(np.round(10 ** rng.uniform(2, 4.5), 1)), _cost=2))
+    # enclosed (fuel) area of the wingbox section against the polygon between the inner skin faces and the inner spar faces
+    n = 24 if tier == "quick" else 720
+    for k in range(n):
+        out.append(dict(kind="wingbox_area", ny=int(rng.integers(2, 9)), npts=int(rng.choice([2, 3, 10, 17])), own_airfoil=bool(k % 3 == 0),
+                        seed=int(rng.integers(1 << 30)), units=bool(k % 4 == 1)))
     return out
 
 
@@ -265,10 +270,86 @@ def run_alone(c, o):
     o.nontrivial = bool(c["relief"] or c["fuel"] or npm)
 
 
+def run_wingbox_area(c, o):
+    """fuel_vols = A_int x element length presupposes that A_int is the area enclosed by the inner faces of skins and spars.  The
+    component's closed form (trapezoids minus 2 t_skin, minus spar strips over the full section height) differs from the polygon
+    between the inner faces only in the four corner overlaps and in the change of height across a spar thickness; both are bounded
+    below, so the comparison is exact up to that bound."""
+    import openmdao.api as om
+    from openaerostruct.structures.section_properties_wingbox import SectionPropertiesWingbox
+
+    rng = np.random.default_rng(c["seed"])
+    ny = c["ny"]
+    if c["own_airfoil"]:
+        n = c["npts"]
+        xu = np.sort(rng.uniform(0.08, 0.7, n))
+        xu[0], xu[-1] = rng.uniform(0.08, 0.2), rng.uniform(0.55, 0.7)
+        xu = np.sort(xu)
+        xl = xu.copy() if rng.random() < 0.5 else np.concatenate([[xu[0]], np.sort(rng.uniform(xu[0], xu[-1], n - 2)), [xu[-1]]])
+        yu = rng.uniform(0.04, 0.07, n)
+        yl = -rng.uniform(0.03, 0.07, n)
+        orig = float(np.max(yu) - np.min(yl)) * float(rng.uniform(0.9, 1.3))
+    else:
+        W = zoo.WINGBOX_AIRFOIL
+        xu, xl, yu, yl = (W[k].copy() for k in ("data_x_upper", "data_x_lower", "data_y_upper", "data_y_lower"))
+        orig = 0.12
+    surf = dict(name="wing", mesh=np.zeros((2, ny, 3)), data_x_upper=xu, data_x_lower=xl, data_y_upper=yu, data_y_lower=yl,
+                original_wingbox_airfoil_t_over_c=orig)
+    chord = 10 ** rng.uniform(-0.5, 1.0, ny - 1)
+    sw = chord * rng.uniform(1.0, 1.6, ny - 1)
+    toc = rng.uniform(0.06, 0.2, ny - 1)
+    hmin = (np.min(yu) - np.max(yl)) * sw * toc / orig
+    ts = hmin * rng.uniform(0.01, 0.08, ny - 1)
+    tsp = hmin * rng.uniform(0.01, 0.15, ny - 1)
+    if rng.random() < 0.3:
+        ts[0] = tsp[0]
+    um, fm = ("inch", 0.0254) if c.get("units") else ("m", 1.0)
+    p = om.Problem(reports=False)
+    ivc = p.model.add_subsystem("ivc", om.IndepVarComp(), promotes=["*"])
+    ivc.add_output("streamwise_chords", sw / fm, units=um)
+    ivc.add_output("fem_chords", chord / fm, units=um)
+    ivc.add_output("fem_twists", rng.uniform(-5, 5, ny - 1), units="deg")
+    ivc.add_output("spar_thickness", tsp / fm, units=um)
+    ivc.add_output("skin_thickness", ts / fm, units=um)
+    ivc.add_output("t_over_c", toc)
+    p.model.add_subsystem("sec", SectionPropertiesWingbox(surface=surf), promotes=["*"])
+    with warnings.catch_warnings():
+        warnings.simplefilter("ignore")
+        p.setup()
+        p.run_model()
+    A_int = np.array(p.get_val("A_int", units="m**2"))
+    A_enc = np.array(p.get_val("A_enc", units="m**2"))
+    A = np.array(p.get_val("A", units="m**2"))
+    ref = np.zeros(ny - 1)
+    bound = np.zeros(ny - 1)
+    gross = np.zeros(ny - 1)
+    for i in range(ny - 1):
+        X_u, X_l = xu * chord[i], xl * chord[i]
+        Y_u, Y_l = yu * sw[i] * toc[i] / orig, yl * sw[i] * toc[i] / orig
+        a, b = max(X_u[0], X_l[0]) + tsp[i], min(X_u[-1], X_l[-1]) - tsp[i]
+        xs = np.unique(np.concatenate([np.linspace(a, b, 4001), X_u[(X_u > a) & (X_u < b)], X_l[(X_l > a) & (X_l < b)]]))
+        h = (np.interp(xs, X_u, Y_u) - ts[i]) - (np.interp(xs, X_l, Y_l) + ts[i])
+        ref[i] = np.trapezoid(h, xs)
+        gross[i] = np.trapezoid(np.interp(xs, X_u, Y_u) - np.interp(xs, X_l, Y_l), xs)
+        slope = np.max(np.abs(np.diff(Y_u) / np.diff(X_u))) + np.max(np.abs(np.diff(Y_l) / np.diff(X_l))) if len(X_u) > 1 else 0.0
+        bound[i] = 4.0 * ts[i] * tsp[i] + slope * tsp[i] ** 2
+    o.tags = ["wingbox_area", "own_airfoil" if c["own_airfoil"] else "sc2_0612"]
+    for i in range(ny - 1):
+        o.le("fuel/enclosed_area_is_inner_polygon", abs(A_int[i] - ref[i]), 1.5 * bound[i] + 1e-12 * gross[i],
+             what="A_int of element %d vs the area between the inner skin and spar faces (chord %.3g m, t_skin %.3g, t_spar %.3g; corner-overlap bound %.3g)"
+             % (i, chord[i], ts[i], tsp[i], bound[i]), A_int=float(A_int[i]), polygon=float(ref[i]))
+        # the mid-line area used for torsion encloses the internal one
+        o.le("fuel/internal_area_within_midline_area", A_int[i] - A_enc[i], 0.0, what="A_int <= A_enc of element %d" % i, A_int=float(A_int[i]), A_enc=float(A_enc[i]))
+    o.nontrivial = True
+    o.info = dict(ny=ny, rel_bound=float(np.max(bound / ref)))
+
+
 def run_case(c):
     o = Obs()
     if c["kind"] == "alone":
         run_alone(c, o)
+    elif c["kind"] == "wingbox_area":
+        run_wingbox_area(c, o)
     else:
         run_loads(c, o)
     return o
